@@ -11,10 +11,6 @@ variable {N : Type}
 
 /-! ### no operator produces Null -/
 
-def Val.isNull : Val N → Bool
-  | .null => true
-  | _ => false
-
 theorem applyOp_not_null (nm : Num N) (o : Op) (a b v : Val N) (h : applyOp nm o a b = some v) : v.isNull = false := by
   cases o with
   | arith ao =>
@@ -158,21 +154,6 @@ theorem joinStrs_of_noNull : ∀ {parts : List (Val N)}, parts.all (fun v => !v.
     | bool b => rfl
 
 /-! ### literals: numbers and strings only -/
-
-mutual
-/-- no literal is Null (the grammar has number and string literals only) -/
-def P.noNull : P N → Bool
-  | .lit v => !v.isNull
-  | .concat args => P.noNullList args
-  | .contains a b => P.noNull a && P.noNull b
-  | .nspace1 a => P.noNull a
-  | .group p => P.noNull p
-  | .bin _ l r => P.noNull l && P.noNull r
-  | _ => true
-def P.noNullList : List (P N) → Bool
-  | [] => true
-  | p :: ps => P.noNull p && P.noNullList ps
-end
 
 /-! ### compiling element by element -/
 
